@@ -135,7 +135,7 @@ def wire_transport_parameters(pair) -> dict:
 
 
 class StreamState:
-    __slots__ = ("highest", "final", "reset", "contig", "tainted", "r_send_done", "got")
+    __slots__ = ("highest", "final", "reset", "tainted", "r_send_done", "got")
 
     def __init__(self):
         self.highest = 0  # highest offset P has sent (accepted frames only)
@@ -195,6 +195,7 @@ class RecvModel:
         self.conn_lo = 0  # bytes counted against max_data: certain
         self.conn_hi = 0  # ... if every 'either' frame was accounted
         self.raises = 0
+        self.resets = 0  # RESET_STREAM frames of P that R let pass
         self.closed = None
 
     # ---- stream id helpers
@@ -388,6 +389,7 @@ class RecvModel:
             else:
                 st.final = end
                 st.reset = True
+                self.resets += 1
         else:
             # 'either' frame that R let pass: we no longer know what R thinks of this stream
             st.tainted = True
